@@ -1,7 +1,8 @@
 """C16 — CS101 end-to-end delivery (DESIGN.md section 6, C16): queue discipline decided in Lean
 (Iec.Props.C16) and tied to cs101_queue.c by a differential that dumps the real ring;
-end-to-end exactly-once / FIFO explored on the real master + slaves over a lossy simulated
-line (harness/e2e101.c, model-free oracle).  Partial: no theorem for the composed system."""
+end-to-end exactly-once / FIFO: theorem for master -> slave on the composed link-layer model (tied by the
+ll101 differential), and explored on the real master + slaves over a lossy simulated line
+(harness/e2e101.c, model-free oracle).  Partial: see the assumptions."""
 import os, re
 from vlib.core import *
 from checks.asdu_common import asan_site
@@ -64,6 +65,13 @@ def run(res):
                     for k, v in re.findall(r"(\w+)=(\d+)", l):
                         tot[k] = tot.get(k, 0) + int(v)
         res.cov["end_to_end"] = tot
+        # 3. the tie of the link-layer model the composed theorems (Props.C16, section "over the line") are about
+        from checks import link_common
+        n_ll, d_ll, h_ll = link_common.link_tie(bdir, res.tier)
+        res.cov["link_model_operations_compared"] = n_ll
+        histo.append(h_ll)
+        if d_ll:
+            diffs = (diffs or []) + d_ll
     except BuildError as e:
         diffs = [{"op": "<build>", "impl": str(e)[-400:], "model": ""}]
     res.cov["traces_validated_against_impl"] = n_ops
@@ -83,7 +91,8 @@ def run(res):
     if broken and not found:
         res.violation("tie-or-proof-broken", " | ".join(broken)[:1200], {"no_longer_checks": broken}, found_input=False)
     res.assumptions += [
-        "PARTIAL: Lean decides the queue discipline only; exactly-once / FIFO delivery of the composed system over a lossy line is explored by the model-free end-to-end oracle and supported by the per-step C15 theorems, not proved",
+        "PARTIAL: Lean decides the queue discipline (every operation sequence) and, for master -> slave in unbalanced mode, exactly-once in-order delivery of the composed model (master connection state machine + FT 1.2 encoder + slave transceiver, parser and secondary state machine) for every pattern of retransmissions / losses / duplicates short of the repeat timeout; slave -> master, the master's parsing of the acknowledgement, several slaves on one line and balanced mode are not composed in Lean and are explored by the model-free end-to-end oracle on the real stacks",
+        "the link-layer model the composed theorems are about is tied to link_layer.c / serial_transceiver_ft_1_2.c by the same differential as C14/C15 (run here too)",
         "the queue model is the content list (oldest first); the ring indices of cs101_queue.c are tied by dumping the real ring after every operation",
         "the oracle tolerates, per reported link failure, one repeated and one missing frame per stream (the frame in flight), as the property does",
     ]
